@@ -176,8 +176,15 @@ func zzC15Startup(depth int) {
 	bb := c.blocks[txAt]
 	w.txBlock = &bb
 
+	// the wallet's birthday block: any block of the chain as the wallet knew it
+	bIdx := verifrt.Choice(len(c.blocks), "birthday-block")
+	birthday := c.meta(c.blocks[bIdx])
+
 	// while stopped: the last `depth` blocks are replaced
 	common := len(c.blocks) - 1 - depth
+	if bIdx > common {
+		verifrt.Reach("birthday-block-orphaned")
+	}
 	c.blocks = c.blocks[:common+1]
 	extra := verifrt.Choice(2, "new-branch-longer")
 	for k := 0; k < depth+extra; k++ {
@@ -189,7 +196,6 @@ func zzC15Startup(depth int) {
 		w.txBlock = nil
 		verifrt.Reach("wallet-tx-orphaned")
 	}
-	birthday := c.meta(c.blocks[0])
 	bs := &waddrmgr.BlockStamp{Height: birthday.Height, Hash: birthday.Hash, Timestamp: birthday.Time}
 	close(w.w.quit)
 	err = w.w.syncWithChain(bs)
